@@ -16,7 +16,7 @@ use serde_json::json;
 
 fn curated() -> Vec<&'static str> {
     vec![
-        "$.a", "$.a.b", "$..a", "$..a.b", "$.*", "$..*", "$.a.*", "$.*.b", "$[0].a", "$.a[0]", "$.a[1:3]", "$.a[::2]", "$['a','b']", "$[0,1]", "$..['a','b']", "$.a[?@.b]", "$.a[?@.b == 1]", "$[?@.a && @.b]", "$[?@.a || @.b && @.c]",
+        "$.a", "$.a.b", "$..a", "$..b", "$.a..b", "$..a.b", "$.*", "$..*", "$.a.*", "$.*.b", "$[0].a", "$.a[0]", "$.a[1:3]", "$.a[::2]", "$['a','b']", "$[0,1]", "$..['a','b']", "$.a[?@.b]", "$.a[?@.b == 1]", "$[?@.a && @.b]", "$[?@.a || @.b && @.c]",
         "$[?!@.a]", "$[?!(@.a == 1)]", "$[?@.a == 'x']", "$[?@.a < 2 || @.b >= 1]", "$[?length(@.a) == 1]", "$[?count(@.*) > 1]", "$[?match(@.a, 'x.*')]", "$[?search(@.a, 'x') && !match(@.b, 'y')]", "$[?value(@..a) == 1]",
         "$[?@[?@.a]]", "$[?@.a[?@ > 1]]", "$..[?@.a]", "$[?@ == $.k]", "$[?$.a[0] == @.b]", "$[?@.a == @.b]", "$.a[?@ > 1, ?@ < 3]", "$[?@.a == true || @.a == null]", "$[?@['x y'] == 1]", "$..['x y']", "$['x y'].a", "$[?@.a.b.c]",
         "$[?@.a[0].b == 1]", "$['xy']", "$..['xy']", "$[?@['xy'] == 2]", "$[?@.a == 'a b']", "$[?@.a == 'ab']", "$[?search(@.a, 'a b')]", "$[?search(@.a, 'ab')]", "$.a[-1]", "$.a[-2:]", "$.a[:1]", "$.a[1:]", "$.a[::-1]", "$.a[0:2:1]", "$[*].a", "$[*][*]", "$..[0]", "$..[*]", "$.a..b", "$[?@.b == 1.5]", "$[?@.a == 1 && (@.b == 2 || @.c == 3)]",
